@@ -35,7 +35,7 @@ CHECKS = {
             "Every package emitted by build/sign/clear is checked by a validator written from rpm's header-loading rules; the validator must first accept rpmbuild's own packages.",
             "validator rules follow rpm's hdrblobVerify* logic as documented in DESIGN.md"),
     "C10": ("exploration", "runtime monitor: sequential model of the signing history checked after every step",
-            "All operation sequences up to a bound (3 quick / 4-5 thorough) over {sign with 4 keys, clear, write+parse, failing sign attempt} from built packages, random histories (5 keys) from built and foreign packages; after every step all keys are tried, key ids, digests and header/payload identity are compared with a 3-line model.",
+            "All operation sequences up to a bound (3 quick / 4-5 thorough) over {sign with 4 keys, clear, write+parse, failing sign attempt} from built packages, random histories (5 keys + a key pair generated at run time whose signing subkey is used as well) from built and foreign packages; after every step all keys are tried, key ids, digests and header/payload identity are compared with a 3-line model.",
             "test keys from the repository; pgp crate derives key ids"),
     "C11": ("exploration", "runtime monitor: byte identity across repeated builds and fresh processes + timestamp bound",
             "Configurations with several non-root owners are built repeatedly in-process and in freshly started processes (different hash seeds, TZ, cwd); distinct outputs per configuration must be 1 and every timestamp <= source date.",
